@@ -72,9 +72,16 @@ func c07Scenarios(thorough bool) []*e1Scenario {
 	if thorough {
 		depth = 5
 	}
-	return []*e1Scenario{{Name: "C07/recovery", World: c07World, Policies: c07Policies(),
-		Prefix: []hist.Event{{Kind: "policy", Policy: 0}, {Kind: "push", Ref: refMain, Commit: "g0", Signer: "P0"}},
-		Menu:   c07Menu(thorough), Depth: depth, Refs: []string{refMain, refFeat}}}
+	return []*e1Scenario{
+		{Name: "C07/recovery", World: c07World, Policies: c07Policies(),
+			Prefix: []hist.Event{{Kind: "policy", Policy: 0}, {Kind: "push", Ref: refMain, Commit: "g0", Signer: "P0"}},
+			Menu:   c07Menu(thorough), Depth: depth, Refs: []string{refMain, refFeat}},
+		// the incident is already in the prefix: one more event of depth for
+		// what happens between a violation and its repair, and after it
+		{Name: "C07/incident", World: c07World, Policies: c07Policies(),
+			Prefix: []hist.Event{{Kind: "policy", Policy: 0}, {Kind: "push", Ref: refMain, Commit: "g0", Signer: "P0"}, {Kind: "push", Ref: refMain, Commit: "b1", Signer: "U"}},
+			Menu:   c07Menu(thorough), Depth: depth, Refs: []string{refMain}},
+	}
 }
 
 func TestC07(t *testing.T) {
